@@ -25,7 +25,7 @@ meta = {"property": pid, "variant": src.name, "origin": "independent sub-agent g
         "needs_to_manifest": notes[:1500],
         "confirmed": {"suite_with_change": res.get("suite"), "demo_fails_with_change": res["demo_fails_with_change"],
                       "demo_passes_without": res["demo_clean_passes"], "demo_output": res.get("demo_output")},
-        "ran": "tools/evalseed.py: scratch worktree (suite + demo with/without), then `git -C /repo apply`, ./check <pid> quick, `git -C /repo checkout -- .`",
+        "ran": "tools/evalseed.py: scratch worktree (suite + demo with/without), then ./check <pid> quick with EDGEGRAPH_REPO=<scratch worktree with the change> (/repo untouched)",
         "checks": {k: {"violation": v["violation"], "no_failing_input": v["no_failing_input"], "summary": v["lines"][:1], "first_message": v.get("message", "")[:300]}
                    for k, v in res["checks"].items()},
         "detected_by": res["detected_by"]}
